@@ -95,6 +95,28 @@ PROPS['C03'] = dict(
     explanation='kernel clauses proved on the quoting functions; round trips against consumer models bounded; call-site coverage of the backend not decided',
     not_decided=['every argument of every command position is routed through the quoting layer', 'pickled exe wrapper path (as_meson_exe_cmdline, meson_exe.run_exe)', '@TEMPLATE@ substitution (substitute_values)'],
 )
+PROPS['C04'] = dict(
+    modules=['specs.ninja', 'contracts.ninja'],
+    bounded=['bounded.ninja'],
+    level='other',
+    design_ref='DESIGN.md §4 C04',
+    technique='deductive (kernel): VCs from the real AST of NinjaBuildElement.check_outputs (loop invariant over a shared set), NinjaBuild.add_build and add_rule; statement sequences through the real classes bounded-exhaustive',
+    level_text='Proved for all output lists and all previously registered sets: check_outputs registers every output path and marks the element erroneous exactly when a path was registered before (by another statement or earlier in the same one); add_build checks EVERY statement, phony or not, and binds a non-phony one to its defined rule; add_rule rejects a second rule of the same name. write() refusing an erroneous element is checked bounded.',
+    level_note='NOT decided: acyclicity, closure of inputs, reachability from all / meson-test-prereq (whole-graph facts of generate_*); forbidden / duplicate target names in Interpreter.add_target; implicit outputs are not registered by the code (contract scoped to explicit outputs).',
+    explanation='kernel: output-collision and rule-binding bookkeeping proved; graph-level clauses not decided',
+    not_decided=['dependency graph acyclic', 'every input exists or is produced', 'default and test targets reachable from all / meson-test-prereq', 'target-name collisions rejected at configure time (Interpreter.add_target)'],
+)
+PROPS['C06'] = dict(
+    modules=['specs.quoting', 'contracts.quoting', 'specs.ninja', 'contracts.conffile'],
+    bounded=['bounded.ninja:run_c06'],
+    level='other',
+    design_ref='DESIGN.md §4 C06',
+    technique='deductive (kernel): VCs from the real AST of replace_if_different (ghost effect trace over an abstract file system) and of NinjaBuildElement.write (set iteration modelled as a fresh arbitrary order, sorted(set) as a function of the set); hash-seed independence of a written statement bounded',
+    level_text='Proved for all paths and file contents: replace_if_different performs no replace and no write when the contents are equal (the unchanged output is not touched) and exactly one os.replace(tmp, dst) otherwise. Proved for all dependency sets: the | and || segments written by NinjaBuildElement.write are functions of the SETS, not of their iteration order.',
+    level_note='Assumed: the abstract file system (existence/content as functions of the path at call time), sorted() without key is a function of the set, non-Windows host. NOT decided: every other source of ordering in a configure run (environment, directory listings, other generators), cross-process determinism as a whole.',
+    explanation='kernel: unchanged outputs are not touched; dependency text independent of set iteration order; whole-run determinism not decided',
+    not_decided=['byte-identical build.ninja / intro files across runs as a whole', 'independence of os.environ order and readdir order'],
+)
 
 # properties with no check yet or outside the technique, each with the reason
 NOT_APPLICABLE = {
